@@ -259,12 +259,25 @@ def local_stage_cases(rng, scratch: Path, rep: Report, n):
         if b.exists(name) != (old is not None):
             rep.violations.append({'what': f'existence check is wrong after an upload interrupted at {stage}', 'signature': sig,
                                    'replay': {'name': name, 'stage': stage, 'mode': mode}})
-        if old is not None and b.download(name) != old:
-            rep.violations.append({'what': f'download returns partial/new content after an upload interrupted at {stage}', 'signature': sig,
-                                   'replay': {'name': name, 'stage': stage, 'mode': mode}})
+        import unittest.mock as _m
+        if old is not None:
+            try:
+                with _m.patch('time.sleep', lambda s_: None):
+                    got_old = b.download(name)
+            except Exception as e:
+                got_old = e
+            if got_old != old:
+                rep.violations.append({'what': f'after an upload interrupted at {stage} ({mode}) the object that was there before ' +
+                                               (f'cannot be downloaded: {type(got_old).__name__}' if isinstance(got_old, Exception) else 'downloads as partial/new content'),
+                                       'signature': sig, 'replay': {'name': name, 'stage': stage, 'mode': mode}})
         # and the object can be written afterwards
-        b.upload(name, new)
-        if b.download(name) != new or sorted(b.list_files('')) != [name]:
+        try:
+            with _m.patch('time.sleep', lambda s_: None):
+                b.upload(name, new)
+                ok_after = b.download(name) == new and sorted(b.list_files('')) == [name]
+        except Exception:
+            ok_after = False
+        if not ok_after:
             rep.violations.append({'what': 'upload after an interrupted upload does not yield the object', 'signature': sig,
                                    'replay': {'name': name, 'stage': stage, 'mode': mode}})
         shutil.rmtree(root, ignore_errors=True)
